@@ -54,12 +54,13 @@ Definition read_only_method (w : string) : bool :=
   contains ".Big).Float64" w || contains ".Big).Cmp" w || contains ".Big).Int64" w ||
   contains ".Big).IsFinite" w || contains ".Big).IsNaN" w || contains ".Big).String" w ||
   contains ".Big).Signbit" w || contains ".Big).Sign" w || contains ".Big).IsInf" w ||
-  (* reflect.Value is a value receiver; these methods only inspect what it refers to *)
-  contains "(reflect.Value).Elem" w || contains "(reflect.Value).Index" w || contains "(reflect.Value).IsNil" w ||
-  contains "(reflect.Value).Kind" w || contains "(reflect.Value).Len" w || contains "(reflect.Value).MapRange" w ||
-  contains "(reflect.Value).Pointer" w || contains "(reflect.Value).IsValid" w || contains "(reflect.Value).Type" w ||
-  contains "(reflect.Value).Interface" w || contains "(reflect.Value).MapIndex" w || contains "(reflect.Value).FieldByName" w ||
-  contains "(reflect.Value).CanConvert" w ||
+  (* reflect.Value is a value receiver; every method but the ones that store through it, run code or change a
+     channel only inspects what it refers to *)
+  (contains "(reflect.Value)." w &&
+   negb (contains "(reflect.Value).Set" w || contains "(reflect.Value).Call" w || contains "(reflect.Value).Send" w ||
+         contains "(reflect.Value).TrySend" w || contains "(reflect.Value).Recv" w || contains "(reflect.Value).TryRecv" w ||
+         contains "(reflect.Value).Close" w || contains "(reflect.Value).Clear" w || contains "(reflect.Value).Grow" w ||
+         contains "(reflect.Value).Addr" w || contains "(reflect.Value).UnsafeAddr" w || contains "(reflect.Value).UnsafePointer" w)) ||
   contains "(time.Time)." w ||                   (* value receiver: the caller's time is copied *)
   contains "decimal.Context)." w.                (* value receiver: a copy of the context *)
 
